@@ -2,7 +2,7 @@
   The field walker of C15: what codec v2 does to ONE key placed in a key-bearing field, as a function of the
   catalogue row's OBSERVED classification (effect, role, empty-key behaviour).  This is the model of the per-field
   arms of `EncodeRequest` / `DecodeResponse` (`c.EncodeKey(r.Key)`, `c.encodeRange(...)`, `c.DecodeKey(...)`,
-  `c.DecodeRegionRange(...)`); a row whose observed effect is `unchanged` / `error` / … gets exactly that action,
+  `c.DecodeRegionRange(...)`, `c.DecodeBucketKeys(...)`); a row whose observed effect is `unchanged` / `error` / … gets exactly that action,
   so the transparency and isolation theorems below genuinely depend on the row satisfying the rule.
 -/
 import ClientGoVerif.Model.ApiV2
@@ -31,7 +31,11 @@ def FieldRow.action (ks : Keyspace) (r : FieldRow) (x : Bytes) : Except Err Byte
     | .end_ => match decodeRegionRange ks [] x with
       | .ok p => .ok p.2
       | .error e => .error e
-    | .key => .error .decode
+    -- region bucket keys (`BucketVersionNotMatch.keys` through `DecodeBucketKeys`): an inner bucket key is
+    -- mem-decoded and stripped when it carries the prefix, otherwise it is not delivered
+    | .key => match memDecode x with
+      | .ok k => if Bytes.isPrefix ks.pfx k then .ok (k.drop ks.pfx.length) else .error .outOfBound
+      | .error e => .error e
   | .unchanged => .ok x
   | _ => .error .decode
 
